@@ -13,6 +13,7 @@ import Pcore.Proofs.FormatLat
 import Pcore.Proofs.FormatMergeRefine
 import Pcore.Proofs.FormatXAlt
 import Pcore.Proofs.FormatSpan
+import Pcore.Proofs.FormatXPP
 /-!
 # C20 — String formatting is total and faithful to the format directive
 
@@ -85,7 +86,10 @@ Full statement / proved / missing
   around the separator-joined element renderings; an object instance is its type name and its init hash between `(` and `)`),
   `C20_x_array_pp` / `C20_x_hash_pp` / `C20_x_obj_pp` (alt mode too: at nesting level L the text is the directly written pretty-printer
   `ppArray` / `ppHash` / `ppObj` of the element renderings — line break and 2·L blanks when the context indents, one entry per line
-  at level L+1, the closing delimiter on its own line), `C20_x_typ` (a Type is its name and its parameters formatted as an Array under
+  at level L+1, the closing delimiter on its own line), `C20_x_container_alt` (END TO END: for values of any depth, every kind, any key
+  system, any mixture of alt and non-alt formats — the hash-as-array form, the parameter lists of Types and the init hashes of
+  object types included, no hypothesis — the model of ToString with its Indentation objects IS the directly written
+  pretty-printer `refPPX`), `C20_x_typ` (a Type is its name and its parameters formatted as an Array under
   the same map), `C20_x_width_partial` (width reached
   wherever the code applies the string flags: SemVer, URI, SemVerRange — every letter, after fix 5c2f826 — and Type).  The full width
   statement `C20_x_width_full` is FALSE: `C20_x_width_fails` (known finding C20-width-ignored, narrowed: the ToString of Timespan,
@@ -1188,5 +1192,22 @@ theorem C20_span_literal (fm : Str) (hfm : ∀ c ∈ fm, c ≠ '%') (ns : Int) (
   | cons c cs => simp [spanFormat2, segsText, segText, hlt]
 
 example : spanFormat "no directive".toList 5 = .text "no directive".toList := by decide +kernel
+
+/-- **the extended model is a pretty-printer, end to end**: for values of ANY depth and kind under ANY per-type format map over any key
+    system (any mixture of alt and non-alt formats; the `%a` form of hashes and object instances, the parameter lists of Types, the
+    init hashes of anonymous object types included — no hypothesis), the rendering computed by the model of `ToString` — Indentation
+    objects with Indenting / Increase / Subsequent / IsFirst / Breaks, `formatContext.Subsequent`, the first-element state of the
+    element loop — IS the directly written pretty-printer `refPPX`: nesting level, "the enclosing format indents" and "not the first
+    thing on its level" as plain parameters, the layouts `ppArray` / `ppHash` / `ppObj` -/
+theorem C20_x_container_alt {κ : Type} (ks : KeySys κ) (io : FloatIO) (m : GMap κ) (v : XVal) :
+    formatX ks io m v = refPPX ks io m 0 false false v := fmtX_pp ks io v m 0 false false
+
+/-- non-vacuity: the pretty-printer on a Type whose parameter list is an alt Array nested in an alt Array, and on a hash formatted
+    with `a` inside an alt array -/
+example : refPPX kindKeys io0 [(.base .arr, .mk { simpleFmt 'a' with alt := true } none)] 0 false false
+      (.array [.int 1, .array [.typ "Integer".toList [.int 0, .int 9], .int 2]]) =
+    .text "[1,\n  [Integer[0, 9], 2]]".toList ∧
+    refPPX kindKeys io0 [(.base .arr, .mk { simpleFmt 'a' with alt := true } none), (.base .hash, .mk (simpleFmt 'a') none)] 0 false false
+      (.array [.int 1, .hash [.mk (.str ['k']) (.int 2)]]) = .text "[1,\n  [\n    ['k', 2]]]".toList := by decide +kernel
 
 end Pcore.Format
